@@ -481,7 +481,7 @@ class Algebra:
         bin = reduce(operator.or_, (self.canon2bin.get(f'e{i}', 2 ** self.d) for i in basis_blade[1:]))
         canon_blade = self.bin2canon.get(bin, False)
         if canon_blade:
-            swaps, *_ = _swap_blades(basis_blade, '', target=canon_blade)
+            swaps, *_ = _swap_blades(basis_blade[1:], '', target=canon_blade[1:])
             return canon_blade, swaps
         return f'e{2 ** self.d}', 0
 
